@@ -300,7 +300,7 @@ def _(query_context: Obj['rbql_engine.RBQLContext'], user_namespace: Opaque, LIK
     invariant(1, not is_none(record_a) and contents(record_a) == query_context.input_iterator.rows[NR - 1] and is_src(record_a) and len(record_a) >= 1, 'current_record')
     invariant(1, implies(not stop_flag, query_context.writer.offered == old(query_context.writer.offered)
                          + jsel_out(query_context.input_iterator.rows, NR - 1, query_context.join_map.kind, query_context.join_map.jmv, query_context.join_map.nullw)
-                         + jrows(query_context.input_iterator.rows[NR - 1], NR, jpairs_of(query_context.input_iterator.rows[NR - 1], query_context.join_map.kind, query_context.join_map.jmv, query_context.join_map.nullw), __i)), 'offered')
+                         + jrows(query_context.input_iterator.rows[NR - 1], NR, jpairs_of(query_context.input_iterator.rows[NR - 1], query_context.join_map.kind, query_context.join_map.jmv, query_context.join_map.nullw), __i)), 'offered', hide=['jsel_out', 'rep_cells', 'jfirst_fail'])
     invariant(1, not stop_flag and not query_context.writer.refused and not query_context.writer.finished, 'stop_flag')
     invariant(1, forall(Int, lambda k: implies(1 <= k and k < NR, not jrec_fail(query_context.input_iterator.rows[k - 1], k, query_context.join_map.kind, query_context.join_map.jmv, query_context.join_map.nullw))), 'no_failure_in_earlier_records')
     invariant(1, jfirst_fail(query_context.input_iterator.rows[NR - 1], NR, jpairs_of(query_context.input_iterator.rows[NR - 1], query_context.join_map.kind, query_context.join_map.jmv, query_context.join_map.nullw), 0)
@@ -314,9 +314,9 @@ def _(query_context: Obj['rbql_engine.RBQLContext'], user_namespace: Opaque, LIK
     raises('rbql_engine.RbqlRuntimeError',
            jrec_fail(query_context.input_iterator.rows[query_context.input_iterator.pos - 1], query_context.input_iterator.pos, query_context.join_map.kind, query_context.join_map.jmv, query_context.join_map.nullw)
            and forall(Int, lambda k: implies(1 <= k and k < query_context.input_iterator.pos, not jrec_fail(query_context.input_iterator.rows[k - 1], k, query_context.join_map.kind, query_context.join_map.jmv, query_context.join_map.nullw)))
-           and str_contains(exc_msg(), 'record ' + str_of_int(query_context.input_iterator.pos)), 'names_first_offending_record')
+           and str_contains(exc_msg(), 'record ' + str_of_int(query_context.input_iterator.pos)), 'names_first_offending_record', hide=['jsel_out', 'jrows', 'rep_cells'])
     raises('rbql_engine.RbqlParsingError',
-           jrec_fail(query_context.input_iterator.rows[query_context.input_iterator.pos - 1], query_context.input_iterator.pos, query_context.join_map.kind, query_context.join_map.jmv, query_context.join_map.nullw), 'parsing_error_passes_through')
+           jrec_fail(query_context.input_iterator.rows[query_context.input_iterator.pos - 1], query_context.input_iterator.pos, query_context.join_map.kind, query_context.join_map.jmv, query_context.join_map.nullw), 'parsing_error_passes_through', hide=['jsel_out', 'jrows', 'rep_cells'])
     loop_types(0, record_a=Opt[List[Cell]], NF=Int, join_matches=List[Tuple[Opt[Int], Int, Rec]], join_match=Tuple[Opt[Int], Int, Rec], bNR=Opt[Int], bNF=Int, record_b=List[Cell],
                out_fields=List[Cell], sort_key=Opt[Key], a1=Cell, a3=Cell, b2=Cell, aNR=Int, a=Obj['rbql_engine.RBQLRecord'], b=Obj['rbql_engine.RBQLRecord'], key=Opaque, star_fields=List[Cell])
     modifies(query_context, query_context.input_iterator, region(query_context.writer), family('joiner'))
